@@ -107,8 +107,8 @@ func (t *sendTr) isFrameAlloc(e ast.Expr) (string, bool) {
 }
 
 // sessionPath: a selector chain rooted at the receiver or at a package-level variable; returns the argument name
-func (t *sendTr) sessionPath(e ast.Expr) (string, bool) {
-	var names []string
+func (t *sendTr) sessionPath(e ast.Expr, field ...string) (string, bool) {
+	names := append([]string{}, field...)
 	cur := paren(e)
 	for {
 		switch x := cur.(type) {
@@ -159,6 +159,25 @@ func (t *sendTr) bytesArg(e ast.Expr) (string, error) {
 	}
 	if v := t.slOf(e); v != nil {
 		return "(" + v.lean + ".bytes m)", nil
+	}
+	{
+		var id *ast.Ident
+		switch x := e.(type) {
+		case *ast.Ident:
+			id = x
+		case *ast.SelectorExpr:
+			if pk, ok := x.X.(*ast.Ident); ok {
+				if _, isPkg := t.info.Uses[pk].(*types.PkgName); isPkg {
+					id = x.Sel
+				}
+			}
+		}
+		if id != nil {
+			if lit, ok := rootByteVars[t.info.Uses[id]]; ok {
+				t.dict["package-level address variables of package packet = their initialisers"] = true
+				return lit, nil
+			}
+		}
 	}
 	ty := t.info.TypeOf(e)
 	if isByteSlice(ty) || isNetipAddr(ty) {
@@ -250,6 +269,53 @@ func (t *sendTr) addrGetter(sel *ast.SelectorExpr) (string, string, bool) {
 }
 
 var rootPackage *packages.Package
+
+// rootByteVars: package-level variables of package packet initialised with a byte-slice literal of constants or with
+// netip.MustParseAddr("literal"), as Lean byte lists
+var rootByteVars map[types.Object]string
+
+func collectRootByteVars(root *packages.Package, addr map[string]string) {
+	rootByteVars = map[types.Object]string{}
+	for _, f := range root.Syntax {
+		for _, d := range f.Decls {
+			gd, ok := d.(*ast.GenDecl)
+			if !ok || gd.Tok != token.VAR {
+				continue
+			}
+			for _, sp := range gd.Specs {
+				vs := sp.(*ast.ValueSpec)
+				if len(vs.Names) != 1 || len(vs.Values) != 1 {
+					continue
+				}
+				o := root.TypesInfo.Defs[vs.Names[0]]
+				if o == nil {
+					continue
+				}
+				if lit, ok := addr[vs.Names[0].Name]; ok {
+					rootByteVars[o] = lit
+					continue
+				}
+				cl, ok := vs.Values[0].(*ast.CompositeLit)
+				if !ok || !isByteSlice(root.TypesInfo.TypeOf(cl)) {
+					continue
+				}
+				var bs []string
+				good := true
+				for _, el := range cl.Elts {
+					tv, ok := root.TypesInfo.Types[el]
+					if !ok || tv.Value == nil || tv.Value.Kind() != constant.Int {
+						good = false
+						break
+					}
+					bs = append(bs, tv.Value.ExactString())
+				}
+				if good {
+					rootByteVars[o] = "([" + strings.Join(bs, ", ") + "] : Bytes)"
+				}
+			}
+		}
+	}
+}
 
 // slArg: a destination-slice argument
 func (t *sendTr) slArg(e ast.Expr) (string, error) {
@@ -528,7 +594,15 @@ func (t *sendTr) sendStmt(s ast.Stmt, next ast.Stmt) (handled bool, skipNext boo
 		// if <cond> { return ErrX }
 		if len(is.Body.List) == 1 {
 			if rs, ok := is.Body.List[0].(*ast.ReturnStmt); ok && len(rs.Results) == 1 {
-				if id, ok := paren(rs.Results[0]).(*ast.Ident); ok && leanErrs[id.Name] != "" {
+				id, ok := paren(rs.Results[0]).(*ast.Ident)
+				if sel, isSel := paren(rs.Results[0]).(*ast.SelectorExpr); isSel {
+					if pk, isId := sel.X.(*ast.Ident); isId {
+						if _, isPkg := t.info.Uses[pk].(*types.PkgName); isPkg {
+							id, ok = sel.Sel, true
+						}
+					}
+				}
+				if ok && leanErrs[id.Name] != "" {
 					c, err := t.sendCond(is.Cond)
 					if err != nil {
 						return true, false, err
@@ -603,6 +677,19 @@ func (t *sendTr) sendStmt(s ast.Stmt, next ast.Stmt) (handled bool, skipNext boo
 			t.emit("  ) else do")
 			t.indent += "  "
 			return true, false, nil
+		}
+	}
+	if as, ok := s.(*ast.AssignStmt); ok && t.wrapper && !t.sent && len(as.Lhs) == 1 && len(as.Rhs) == 1 && as.Tok == token.ASSIGN && exprStr(as.Lhs[0]) == "err" {
+		if c, ok := paren(as.Rhs[0]).(*ast.CallExpr); ok {
+			if rs, ok := next.(*ast.ReturnStmt); ok && len(rs.Results) == 1 && exprStr(rs.Results[0]) == "err" {
+				app, err := t.senderCall(c)
+				if err != nil {
+					return true, false, err
+				}
+				t.emit("%s", app)
+				t.sent = true
+				return true, true, nil
+			}
 		}
 	}
 	if rs, ok := s.(*ast.ReturnStmt); ok && t.wrapper && len(rs.Results) == 1 {
@@ -1018,17 +1105,62 @@ func (t *sendTr) senderCall(c *ast.CallExpr) (string, error) {
 				}
 				break
 			}
-			// a package-level / session struct value: one extra argument per field
-			n, ok := t.sessionPath(c.Args[i])
-			if !ok {
-				return "", fail("struct argument %s of %s", exprStr(c.Args[i]), r.name)
+			if cl, ok := paren(c.Args[i]).(*ast.CompositeLit); ok {
+				// T{F: e, …}: the fields given, the zero value for the others
+				fns := strings.Split(strings.TrimPrefix(k, "struct:"), ",")
+				ftys := strings.Split(r.fieldTys[i], ",")
+				vals := map[string]string{}
+				var lerr error
+				for _, el := range cl.Elts {
+					kv, ok := el.(*ast.KeyValueExpr)
+					if !ok {
+						lerr = fail("positional struct literal")
+						break
+					}
+					key := exprStr(kv.Key)
+					for j, f := range fns {
+						if f != key {
+							continue
+						}
+						if ftys[j] == "Bytes" {
+							vals[f], lerr = t.bytesArg(kv.Value)
+						} else {
+							var kk ekind
+							vals[f], kk, lerr = t.num(kv.Value)
+							if lerr == nil && kk != kNat {
+								lerr = fail("field %s", f)
+							}
+						}
+					}
+					if lerr != nil {
+						break
+					}
+				}
+				if lerr != nil {
+					return "", lerr
+				}
+				for j, f := range fns {
+					if v, ok := vals[f]; ok {
+						out = append(out, v)
+					} else if ftys[j] == "Bytes" {
+						out = append(out, "([] : Bytes)")
+					} else {
+						out = append(out, "0")
+					}
+				}
+				break
 			}
+			// a package-level / session struct value: one extra argument per field
 			for j, f := range strings.Split(strings.TrimPrefix(k, "struct:"), ",") {
+				n, ok := t.sessionPath(c.Args[i], f)
+				if !ok {
+					return "", fail("struct argument %s of %s", exprStr(c.Args[i]), r.name)
+				}
 				ty := "Bytes"
 				if strings.Split(r.fieldTys[i], ",")[j] == "Nat" {
 					ty = "Nat"
 				}
-				out = append(out, t.extraParam(n+"_"+f, ty))
+				out = append(out, t.extraParam(n, ty))
 			}
 		}
 	}
@@ -1201,6 +1333,7 @@ func translateSender(p *packages.Package, fd *ast.FuncDecl, name string, encs ma
 // senderFacts writes Gen/Senders.lean.
 func senderFacts(pkgs []*packages.Package, root *packages.Package, b *strings.Builder) {
 	rootPackage = root
+	collectRootByteVars(root, packageAddrVars(root))
 	// calling conventions of the translated encoders (the same candidate set as encoderFacts)
 	encs := map[string]encResult{}
 	addr := packageAddrVars(root)
@@ -1339,6 +1472,11 @@ func senderFacts(pkgs []*packages.Package, root *packages.Package, b *strings.Bu
 					continue
 				}
 				c, ok := paren(rs.Results[0]).(*ast.CallExpr)
+				if !ok && len(fd.Body.List) >= 2 && exprStr(rs.Results[0]) == "err" {
+					if as, isAs := fd.Body.List[len(fd.Body.List)-2].(*ast.AssignStmt); isAs && len(as.Rhs) == 1 && len(as.Lhs) == 1 && exprStr(as.Lhs[0]) == "err" {
+						c, ok = paren(as.Rhs[0]).(*ast.CallExpr)
+					}
+				}
 				if !ok {
 					continue
 				}
